@@ -125,6 +125,10 @@ def monitors(cases):
                 flag(c, "re-encoding-not-a-fixed-point")
             if c["codec"] == "unpack" and c["reenc"] != c["in"]:
                 flag(c, "records-do-not-partition-datagram")
+            # UnpackDatagram13 may legitimately stop early (connection-id mismatch); for a datagram
+            # built from well-formed records of one connection id it must return all of it
+            if c["codec"] == "unpack13" and c["kind"] in ("valid", "cvalid") and c["reenc"] != c["in"]:
+                flag(c, "records-do-not-partition-datagram")
         par = valid.get((c["id"], tuple(c["ctx"]), c.get("parent", "")))
         if c["kind"] in ("trunc", "ctrunc") and par is not None and c["res"] == "ok" and self_delimiting(c):
             # RRC messages of unknown type have no length of their own
